@@ -15,6 +15,7 @@ from contracts.C03_series_validate import SeriesSchemaValidate
 from contracts.C04_field_validate import ArrayValidate, IndexValidate
 from contracts.C04_polars_api import CONTRACTS as POLARS_API
 from contracts.C05_component_restore import ColumnValidateRestoresSchema, RunSchemaComponentChecks
+from contracts.C02_coerce_helper import CoerceDtypeHelper
 from contracts.C06_run_checks import ArrayCollect, ArrayRunChecks, ColumnRunChecks, ContainerRunChecks
 
 
@@ -23,4 +24,4 @@ def strict(cls):
 
 
 CONTRACTS = [strict(c) for c in [ContainerValidate, SeriesSchemaValidate, ArrayValidate, IndexValidate, ColumnValidateRestoresSchema,
-                                 RunSchemaComponentChecks, ArrayRunChecks, ColumnRunChecks, ContainerRunChecks] + list(POLARS_API)]
+                                 RunSchemaComponentChecks, ArrayRunChecks, ColumnRunChecks, ContainerRunChecks, CoerceDtypeHelper] + list(POLARS_API)]
